@@ -129,8 +129,16 @@ def rule_r1(chk, prog):
                 st.targets[0], ast.Name) and unparse(
                     st.value) == f'{state}[{cursor}]':
             tagvar = st.targets[0].id
-    if tagvar is None:
+    tagexpr = f'{state}[{cursor}]'
+    if tagvar is None and not any(
+            isinstance(x, ast.Compare) and tagexpr in (
+                unparse(x.left), unparse(x.comparators[0]))
+            for x in ast.walk(rloops[0])):
         raise AnalysisError('__setstate__: tag byte variable not found')
+
+    def is_tag(e):
+        return (isinstance(e, ast.Name) and e.id == tagvar) or \
+            unparse(e) == tagexpr
 
     def int_const(e, depth=0):
         if isinstance(e, ast.Constant) and isinstance(e.value, int):
@@ -167,9 +175,9 @@ def rule_r1(chk, prog):
             if isinstance(e_, ast.Compare) and len(e_.ops) == 1 and \
                     isinstance(e_.ops[0], ast.Eq):
                 l_, r_ = e_.left, e_.comparators[0]
-                if isinstance(r_, ast.Name) and r_.id == tagvar:
+                if is_tag(r_):
                     l_, r_ = r_, l_
-                if isinstance(l_, ast.Name) and l_.id == tagvar:
+                if is_tag(l_):
                     v_ = int_const(r_)
                     if v_ is not None:
                         tagv = v_
